@@ -78,11 +78,15 @@ CHECKS.update({
                      "(k-th root vs k-th eigenvalue), exact at sufficient bond dimension, returned states normalised / in sector / QN-valid, omega targeting; bounded.",
                 technique="runtime contracts derived from the variational theorem on the real optimiser over bounded inputs (bounded stand-in of the contract family)",
                 note=OTHER_NOTE),
-    "C09": dict(cat="exploration", ref="DESIGN §8 C09",
-                text="Theorem-derived error bounds per scheme (Taylor / stage-polynomial remainder with the coefficients certified in C19, exactness of PS/PS2/VMF at "
+    "C09": dict(cat="other", ref="DESIGN §8 C09, S.2",
+                text="Engine S (kernel-stub mode): the real _evolve_prop_and_compress (Taylor), _tdrk4 and _tdrk (all eight single-row tableaux) run on symbolic states with "
+                     "lossless compressions; the dense result equals sum_k d_k (-i dt H)^k psi with d_k computed from the tableau in rational arithmetic (C19 certifies d_k = 1/k! "
+                     "up to the order), and for H(t) the exact explicit Runge-Kutta recursion with absolute stage times - for all states of the enumerated shapes, states with the "
+                     "centre moved, density operators, real and imaginary time. Theorem-derived error bounds per scheme (Taylor / stage-polynomial remainder with the coefficients certified in C19, exactness of PS/PS2/VMF at "
                      "full bond dimension, order of CMF) against scipy expm; solver-, split- and adaptivity-independence; norm/energy conservation of TDVP-PS at any "
                      "bond dimension; bond limits; density-operator form; time-dependent H; histories of scheme switches. Bounded; nothing proved.",
-                technique="runtime contracts with theorem-derived bounds on the real evolution methods (bounded stand-in; convergence is outside the VC generator)",
+                technique="exact symbolic execution of the real propagation-and-compression schemes (stage-polynomial identity, all tensor values); runtime contracts with "
+                          "theorem-derived bounds on every scheme (bounded stand-in for the floating-point / TDVP clauses)",
                 note=OTHER_NOTE),
     "C10": dict(cat="exploration", ref="DESIGN §8 C10",
                 text="Imaginary-time branch of every scheme vs normalised expm(-tau H)psi, exact local propagator incl. shift / phase / frame bookkeeping, purified "
@@ -184,7 +188,7 @@ def main():
             {"name": "pyvc", "path": "vk/pyvc", "serves_properties": ["C02", "C03", "C04", "C05", "C06", "C14", "C16", "C17", "C20"], "kind_free_text": "AST -> verification conditions (loop invariants, call by contract) -> z3/cvc5"},
             {"name": "exact-exec", "path": "vk/symx/exactexec.py", "serves_properties": ["C16", "C19"], "kind_free_text": "real source executed on exact rationals / z3 reals"},
             {"name": "effects", "path": "vk/pyvc/effects.py", "serves_properties": ["C13"], "kind_free_text": "alias / effect analysis of the real source against sidecar modifies clauses"},
-            {"name": "symx", "path": "vk/symx", "serves_properties": ["C01", "C02", "C03", "C04", "C07", "C11", "C15", "C18"], "kind_free_text": "real NumPy-level code executed on exact symbolic polynomial scalars; identities decided by normal form"},
+            {"name": "symx", "path": "vk/symx", "serves_properties": ["C01", "C02", "C03", "C04", "C07", "C09", "C11", "C15", "C18"], "kind_free_text": "real NumPy-level code executed on exact symbolic polynomial scalars; identities decided by normal form"},
             {"name": "rtc", "path": "vk/rtc", "serves_properties": ["C01", "C02", "C03", "C04", "C05", "C06", "C07", "C08", "C09", "C10", "C11", "C12", "C13", "C14", "C15", "C16", "C17", "C18", "C20"], "kind_free_text": "runtime contracts on the real functions, bounded-exhaustive inputs (bounded stand-in, never counted as proved)"},
         ],
         "checks": checks,
